@@ -1396,6 +1396,24 @@ def subst_closure(cf, body, params, caps):
     return map_tree(body, one)
 
 
+def is_membership(P, e, depth=0):
+    """`e` tests whether a key is present in the registry's map: contains_key on it, or a call of an in-crate wrapper whose
+    only exit is such a test on its receiver's own map (`fn contains(&self, p) -> bool { self.types.contains_key(p) }`)"""
+    e = strip(e)
+    if e[0] != 'call':
+        return False
+    if re.search(MAPM('contains_key'), e[1]):
+        return True
+    if depth < 2 and e[1] in P.fns:
+        g = P.fns[e[1]]
+        ex = g.exits()
+        if len(ex) == 1 and not g.switches() and g.raw.get('output') == 'bool':
+            x = strip(ex[0]['expr'])
+            return x[0] == 'call' and is_membership(P, x, depth + 1) and strip(x[2][0])[0] == 'field' and strip(strip(x[2][0])[1])[0] == 'arg' and \
+                all(strip(a)[0] == 'arg' for a in x[2][1:])
+    return False
+
+
 def state_home(fn, e, depth=0):
     """(function, expression) where a piece of state really lives: a value that is read out of the struct (or tuple) returned
     by an in-crate helper — `let S { flag, .. } = parse_attributes(..)?` — is followed into the helper, whose own local it is"""
